@@ -25,6 +25,7 @@ RULE = ('loader: sets of 0-6 configured names (recording classes with order 0-3,
 ASSUMPTIONS = ['only the first tracepoint logger is used by the agent (documented behaviour), so a second logger '
                'never records', 'the faulted plugin\'s own later calls are not required']
 EXHAUSTIVE = ['per scenario: every (plugin, callback, k-th call) seen in the fault-free run is faulted once']
+RULE += '; loader: order() / is_active() failing with a BaseException that is not an Exception, a plugin module that calls sys.exit() at import, a plugin switched off by a display name that differs from its class name'
 REQUIRE = {'loader_switched_off_by_display_name': 5, 'loader_base_exception_faults': 4, 'loader_module_exits_at_import': 4, 'loader_sets': 300, 'faults_injected': 1500, 'scenarios': 40, 'callbacks_covered': 5, 'e2e_sessions': 8, 'builtin_plugin_runs': 3}
 SHARD_TIMEOUT = {'quick': 400, 'thorough': 2400}
 
